@@ -17,7 +17,7 @@ ASSUME = ['float64; identities judged to 1e-12 relative to ||A|| (squared quanti
           'a tolerance within 1e-12 of a cumulative weight accepts both neighbouring truncation ranks (the statement is about real-number weights)']
 
 TOL = 1e-12
-SPECTRA = ['decay', 'flat', 'pairs', 'rankdef', 'crossdeg', 'steep']
+SPECTRA = ['decay', 'flat', 'pairs', 'rankdef', 'crossdeg', 'steep', 'exact_ties']
 
 
 def designed_matrix(q0, q1, seed, spectrum):
@@ -45,6 +45,18 @@ def designed_matrix(q0, q1, seed, spectrum):
             sv = 1.0 / (1 + np.arange(k))      # same values in every block: degenerate across blocks
         elif spectrum == 'steep':
             sv = 10.0 ** (-3.0 * np.arange(k) - bi)
+        elif spectrum == 'exact_ties':
+            # exactly repeated singular values: the block is a scaled partial permutation matrix (one entry per row / column),
+            # so its singular values are the weights themselves, bit for bit
+            pool = np.array([1.0, 0.5, 0.5, 0.25, 0.5, 1.0, 0.25, 0.125])
+            sv = pool[(np.arange(k) + bi) % len(pool)]
+            pr = rng.permutation(r)[:k]; pc = rng.permutation(s)[:k]
+            blk = np.zeros((r, s), dtype=complex)
+            ph = np.exp(2j * np.pi * rng.random(k)) if cplx else rng.choice([-1.0, 1.0], size=k)
+            blk[pr, pc] = sv * ph
+            A[np.ix_(i, j)] = blk
+            svals += list(sv)
+            continue
         else:
             raise ValueError(spectrum)
 
